@@ -132,6 +132,30 @@ def ensure_deps():
         sys.path.append(DEPS)
 
 
+def ensure_atheris():
+    """Install atheris offline into /verif/.deps (git-ignored); returns False
+    (with the reason) if that is not possible - the caller reports the fuzz
+    stage as not run, never as a verdict."""
+    marker = os.path.join(DEPS, ".ok-atheris")
+    if not os.path.exists(marker):
+        os.makedirs(DEPS, exist_ok=True)
+        import fcntl
+
+        with open(os.path.join(DEPS, ".lock-atheris"), "w") as lf:
+            fcntl.flock(lf, fcntl.LOCK_EX)
+            if not os.path.exists(marker):
+                r = subprocess.run(
+                    [PY, "-m", "pip", "install", "-q", "--no-index", "--find-links",
+                     "/opt/veriftools/wheels", "--target", DEPS, "atheris"],
+                    capture_output=True, text=True)
+                if r.returncode != 0:
+                    return False, r.stderr[-300:]
+                open(marker, "w").write("ok\n")
+    if DEPS not in sys.path:
+        sys.path.append(DEPS)
+    return True, ""
+
+
 def h64(obj) -> str:
     if not isinstance(obj, (bytes, str)):
         obj = repr(obj)
